@@ -9,6 +9,7 @@ import (
 	"path/filepath"
 	"strings"
 	"sync"
+	"sync/atomic"
 	"testing"
 
 	d128 "github.com/woodsbury/decimal128"
@@ -71,6 +72,9 @@ func errStr(err error) string {
 	}
 	return "error"
 }
+
+// c20Flip alternates the earlier contents of big receivers between executions of the same call.
+var c20Flip atomic.Uint64
 
 var c20Entries = []c20Entry{
 	// arithmetic (any mode value, including invalid ones)
@@ -139,18 +143,31 @@ var c20Entries = []c20Entry{
 		if n := c.X.Num(); n.Class == ref.Finite && n.Exp > 500 {
 			return nil // thousands of digits: exercised by C10, skipped here for cost
 		}
-		return []string{c.X.Dec().Int(nil).String()}
+		// the receiver's earlier contents change from one execution of the same call to the next (nil, then a
+		// pre-loaded value, ...): the result must not depend on them
+		var z *big.Int
+		if c20Flip.Add(1)&1 == 1 {
+			z = new(big.Int).Lsh(big.NewInt(c.J|1), uint(c.I&127))
+		}
+		return []string{c.X.Dec().Int(z).String()}
 	}},
 	{"Rat", specialArg, func(c *c20Call) []string {
 		if n := c.X.Num(); n.Class == ref.Finite && (n.Exp > 500 || n.Exp < -500) {
 			return nil
 		}
-		return []string{c.X.Dec().Rat(nil).String()}
+		var r *big.Rat
+		if c20Flip.Add(1)&1 == 1 {
+			r = big.NewRat(c.J|1, int64(c.I&1023)+2)
+		}
+		return []string{c.X.Dec().Rat(r).String()}
 	}},
 	{"Float", nanArg, func(c *c20Call) []string {
 		var f *big.Float
 		if c.I > 0 {
 			f = new(big.Float).SetPrec(uint(c.I % 2000))
+			if f.Prec() != 0 && c20Flip.Add(1)&1 == 1 {
+				f.SetFloat64(-1.5) // same precision, different earlier value
+			}
 		}
 		return []string{c.X.Dec().Float(f).Text('p', 0)}
 	}},
